@@ -46,6 +46,9 @@ CHECKS = {
  "C19": dict(cat="exploration", tech="exhaustive configuration enumeration: all GOOS/GOARCH targets built by the real compiler with overlay-added compile-time constant assertions; AST facts of the stubs",
    text="All 49 targets of `go tool dist list` are built (thorough: vetted) with an overlay file per package asserting every declared constant (numeric and string) equals the vendored Linux UAPI value; loader/stub file selection from go list; stub file parsed (no imports, no calls, Supported returns literal false); GetInfo(goarch) has a table exactly for 386/amd64/arm/arm64.",
    note="Limit: foreign targets are compiled and constant-evaluated, not executed. ENOSYS expected 89 on linux/mips*, 38 elsewhere.", ref="DESIGN.md C19"),
+ "C14": dict(cat="exploration", tech="exhaustive enumeration of case variants and single-edit mutants of all names; round trip of every policy of bounded scopes through three renderings and the real config loader, compared by compiled program",
+   text="All 2^letters ASCII case variants of the 15 names parse to the exact constant; all single-edit mutants over a 34-symbol alphabet (incl. NUL and Unicode look-alikes), concatenations and look-alikes are rejected (three-valued under Unicode folding); printed forms parse back. Every policy of S1 (<=2 groups), S3-small and S2 (8 ops x 6 indices x 45 operands x named actions) is rendered by an independent emitter, yaml.Marshal and json.Marshal, read back via ucfg/yaml + Unpack as cmd/sandbox does, and must compile to the identical program.",
+   note="Trusted: ucfg/yaml and yaml.v2 as dependencies on the documented path; arbitrary strings are represented by the edit-distance-1 neighbourhood and a look-alike list.", ref="DESIGN.md C14"),
 }
 
 ALL = ["C%02d" % i for i in range(1, 20)]
